@@ -865,7 +865,15 @@ impl InternalKey {
 		// First compare by user key (ascending)
 		match self.user_key.cmp(&other.user_key) {
 			// If user keys are equal, compare by timestamp (descending - newer timestamps first)
-			Ordering::Equal => other.timestamp.cmp(&self.timestamp),
+			Ordering::Equal => match other.timestamp.cmp(&self.timestamp) {
+				// Two versions of a key can carry the same timestamp (explicit
+				// timestamps). They are different entries: without a tie-break the
+				// version index takes them for one key and the second insert
+				// overwrites the first (a value under a tombstone's key, or the
+				// other way round). Newer commit first, as in the LSM order.
+				Ordering::Equal => other.seq_num().cmp(&self.seq_num()),
+				ordering => ordering,
+			},
 			ordering => ordering,
 		}
 	}
